@@ -26,7 +26,7 @@ import (
 const (
 	tdShort  = 100 * time.Millisecond  // timeout of a "short" write: fires at the next `fire`
 	tdMargin = 100 * time.Millisecond  // slack `fire` waits beyond the timeout
-	tdLong   = 2500 * time.Millisecond // timeout of a "long" write: never fires within a history
+	tdLong   = 10 * time.Minute        // timeout of a "long" write: never fires within a history (2.5 s did, on a machine slowed down tenfold)
 )
 
 type tdPend struct {
